@@ -177,7 +177,13 @@ class Stage:
             Stage._world_key, Stage._world_tty = wkey, self.tty
         reset_sub(self.um)
         self.term = vterm.VTerm(self.W, self.H, self.term_ident)
-        self.tty.sink = self.term
+        # Two devices: what the screen writes to its own output stream reaches self.term; what the library writes
+        # to the ACTIVE terminal device (write_tty) reaches the tty's sink.  Normally the screen runs on the active
+        # terminal (same model); a "detached" scene gives the screen its own streams on another terminal, so bytes
+        # sent to the active terminal never reach the screen's one.
+        self.detached = bool(cfg.get("detached"))
+        self.tty_sink = vterm.VTerm(self.W, self.H, self.term_ident) if self.detached else self.term
+        self.tty.sink = self.tty_sink
         self.screen, self.out = new_screen(self.um, self.term)
         self.widgets = {}          # wid -> UrwidImage
         self.kinds = {}            # wid -> "K" | "I" | "B"
@@ -383,10 +389,12 @@ class Stage:
                 if sp["layout"] in ("cols", "bcols"):
                     ops.append(op)
             elif k == "cimg":
-                if "K" in KINDS_BY_IDENTITY[self.ident]:
+                # now=True addresses the active terminal: meaningless for a screen living on another terminal
+                if "K" in KINDS_BY_IDENTITY[self.ident] and not (self.detached and op[1] == "now"):
                     ops.append(op)
             elif k == "cimgw":
                 if ("K" in KINDS_BY_IDENTITY[self.ident] and op[1] < len(sp["slots"])
+                        and not (self.detached and op[2] == "now")
                         and sp["slots"][op[1]][0] == "img"):
                     ops.append(op)
             else:
@@ -719,7 +727,7 @@ class Stage:
             return None
         finally:
             um.UrwidImageCanvas._ti_disguise_state = saved
-            self.tty.sink = self.term
+            self.tty.sink = self.tty_sink
         res = (t.snapshot_placements(), t.snapshot_cells())
         Stage._fresh_cache[key] = res
         return res
@@ -743,7 +751,7 @@ class Stage:
         book = (sorted(views, key=repr),
                 getattr(self.screen, "_ti_screen_canv", None) is getattr(self.screen, "_screen_buf_canvas", None),
                 getattr(self.screen, "screen_buf", None) is not None)
-        return h64(repr((self.spec, ws, book, um.UrwidImageCanvas._ti_disguise_state,
+        return h64(repr((self.spec, self.detached, ws, book, um.UrwidImageCanvas._ti_disguise_state,
                          sub.__dict__.get("_ti_next_z_index"), tuple(sub.__dict__.get("_ti_free_z_indexes", ())),
                          tuple(um.UrwidImage._ti_free_z_indexes), um.UrwidImage._ti_next_z_index)))
 
